@@ -880,6 +880,160 @@ fn replay(args: &Args, path: &Path, codecs: &[Codec]) -> i32 {
     }
 }
 
+/// Sanitizer lanes (thorough tier, or `VERIF_C13_SAN=1`): the same child entry
+/// point under valgrind memcheck, and an in-process run of the decoder under
+/// Miri, over a small slice of every kernel-free decoder's corpus. First-party
+/// code has no `unsafe`; what these lanes can see is misuse inside dependencies
+/// (`bytemuck` casts in the zero-copy WSC reader, `bytes`, `ciborium`, `half`) and
+/// alignment assumptions. A lane that cannot run is recorded as skipped.
+fn sanitizer_lanes(rep: &mut Report, args: &Args, codecs: &[Codec], corpora: &[Vec<Input>], self_bin: &Path, scratch: &Scratch) {
+    let want = args.tier == verif_core::Tier::Thorough || std::env::var("VERIF_C13_SAN").is_ok_and(|v| v == "1");
+    if !want {
+        rep.set("sanitizer_lanes", json!("not run in this tier (thorough, or VERIF_C13_SAN=1)"));
+        return;
+    }
+    let mut skipped: Vec<String> = Vec::new();
+    let mut vg_inputs = 0u64;
+    let mut vg_decoders = 0u64;
+    let mut miri_inputs = 0u64;
+    let mut miri_decoders = 0u64;
+    let have_vg = Command::new("valgrind").arg("--version").stdout(Stdio::null()).stderr(Stdio::null()).status().is_ok_and(|s| s.success());
+    if !have_vg {
+        skipped.push("valgrind: not installed".into());
+    }
+    let harness_dir = std::env::var("VERIF_ROOT").map_or_else(|_| PathBuf::from("/verif/harness"), |r| PathBuf::from(r).join("harness"));
+    let miri_ok = std::env::var("VERIF_REPO_OVERRIDE").is_err();
+    if !miri_ok {
+        skipped.push("miri: not run against an override worktree".into());
+    }
+    let miri_budget = Instant::now();
+    let miri_limit = Duration::from_secs(std::env::var("VERIF_C13_MIRI_BUDGET_S").ok().and_then(|s| s.parse().ok()).unwrap_or(1500));
+    for (ci, codec) in codecs.iter().enumerate() {
+        if codec.needs_kernel {
+            continue;
+        }
+        // a small slice: a few of every origin, nothing above 16 KiB
+        let mut pick: Vec<&Input> = Vec::new();
+        let mut per: std::collections::BTreeMap<&'static str, usize> = std::collections::BTreeMap::new();
+        for i in &corpora[ci] {
+            if i.bytes.len() > 16 << 10 {
+                continue;
+            }
+            let n = per.entry(i.origin).or_insert(0);
+            let cap = match i.origin { "valid" => 6, "mutated" => 24, "truncated" => 12, "crafted" => 8, _ => 6 };
+            if *n < cap {
+                *n += 1;
+                pick.push(i);
+            }
+        }
+        if pick.is_empty() {
+            continue;
+        }
+        let refs: Vec<&[u8]> = pick.iter().map(|i| i.bytes.as_slice()).collect();
+        let batch = scratch.path().join(format!("san-{ci}.batch"));
+        if child::write_batch(&batch, &refs).is_err() {
+            continue;
+        }
+        if have_vg {
+            let out = scratch.path().join(format!("san-{ci}.out"));
+            let log = scratch.path().join(format!("san-{ci}.vg"));
+            let res = Command::new("valgrind")
+                .args(["-q", "--error-exitcode=97", "--leak-check=no", "--track-origins=no", "--num-callers=12"])
+                .arg(format!("--log-file={}", log.display()))
+                .arg(self_bin)
+                .args(["--child", "1", "--no-rlimit", "1", "--decoder", codec.name, "--batch"])
+                .arg(&batch)
+                .arg("--out")
+                .arg(&out)
+                .env("RUST_BACKTRACE", "0")
+                .stdin(Stdio::null())
+                .stdout(Stdio::null())
+                .stderr(Stdio::null())
+                .status();
+            rep.eval();
+            match res {
+                Ok(st) if st.code() == Some(97) => {
+                    let text = std::fs::read_to_string(&log).unwrap_or_default();
+                    let kind = ["Invalid read", "Invalid write", "Conditional jump", "Use of uninitialised", "Invalid free", "Mismatched free", "Source and destination overlap"]
+                        .iter()
+                        .find(|k| text.contains(**k))
+                        .map_or("error", |k| *k)
+                        .replace(' ', "-")
+                        .to_lowercase();
+                    rep.violation(
+                        &format!("C13:{}:valgrind-memcheck:{kind}", codec.name),
+                        &format!("valgrind memcheck reported an error while {} decoded {} inputs: {}", codec.name, refs.len(), text.lines().take(14).collect::<Vec<_>>().join(" | ")),
+                        json!({"decoder": codec.name, "lane": "valgrind", "inputs_hex": pick.iter().take(64).map(|i| verif_core::hex(&i.bytes[..i.bytes.len().min(256)])).collect::<Vec<_>>()}),
+                    );
+                }
+                Ok(st) if st.success() => {
+                    vg_inputs += refs.len() as u64;
+                    vg_decoders += 1;
+                }
+                Ok(st) => skipped.push(format!("valgrind:{}: child exited {:?} (not a memcheck report)", codec.name, st.code())),
+                Err(e) => skipped.push(format!("valgrind:{}: {e}", codec.name)),
+            }
+        }
+        if miri_ok && miri_budget.elapsed() < miri_limit {
+            // Miri is ~4 orders of magnitude slower: a dozen inputs per decoder
+            let few: Vec<&[u8]> = refs.iter().take(12).copied().collect();
+            let mb = scratch.path().join(format!("miri-{ci}.batch"));
+            if child::write_batch(&mb, &few).is_err() {
+                continue;
+            }
+            let res = Command::new("cargo")
+                .args(["+nightly", "miri", "run", "--offline", "-q", "-p", "verif-codec", "--target-dir"])
+                .arg(harness_dir.join("..").join("target-miri-codec"))
+                .args(["--", "--inproc", "1", "--prop", "C13", "--decoder", codec.name, "--batch"])
+                .arg(&mb)
+                .current_dir(&harness_dir)
+                .env("MIRIFLAGS", "-Zmiri-disable-isolation")
+                .env("CARGO_NET_OFFLINE", "true")
+                .env_remove("RUSTFLAGS")
+                .stdin(Stdio::null())
+                .output();
+            rep.eval();
+            match res {
+                Ok(o) => {
+                    let so = String::from_utf8_lossy(&o.stdout);
+                    let se = String::from_utf8_lossy(&o.stderr);
+                    if o.status.success() && so.contains("INPROC") {
+                        miri_inputs += 2 * few.len() as u64;
+                        miri_decoders += 1;
+                    } else if se.contains("Undefined Behavior") {
+                        let first = se.lines().find(|l| l.contains("Undefined Behavior")).unwrap_or("").trim().to_owned();
+                        rep.violation(
+                            &format!("C13:{}:miri:undefined-behavior", codec.name),
+                            &format!("Miri reported undefined behaviour while {} decoded {} inputs: {first}", codec.name, few.len()),
+                            json!({"decoder": codec.name, "lane": "miri", "report": se.lines().take(40).collect::<Vec<_>>()}),
+                        );
+                    } else if se.contains("unsupported operation") {
+                        let first = se.lines().find(|l| l.contains("unsupported operation")).unwrap_or("").trim().chars().take(160).collect::<String>();
+                        skipped.push(format!("miri:{}: {first}", codec.name));
+                    } else if se.contains("panicked at") {
+                        let first = se.lines().find(|l| l.contains("panicked at")).unwrap_or("").trim().chars().take(200).collect::<String>();
+                        rep.violation(
+                            &format!("C13:{}:miri:panic", codec.name),
+                            &format!("{} panicked under the interpreter (where allocation alignment is minimal): {first}", codec.name),
+                            json!({"decoder": codec.name, "lane": "miri", "report": se.lines().take(40).collect::<Vec<_>>()}),
+                        );
+                    } else {
+                        skipped.push(format!("miri:{}: exit {:?}: {}", codec.name, o.status.code(), se.lines().last().unwrap_or("").chars().take(160).collect::<String>()));
+                    }
+                }
+                Err(e) => skipped.push(format!("miri:{}: {e}", codec.name)),
+            }
+        } else if miri_ok {
+            skipped.push(format!("miri:{}: lane budget used up", codec.name));
+        }
+    }
+    rep.count("valgrind_decoders_clean", vg_decoders);
+    rep.count("valgrind_inputs", vg_inputs);
+    rep.count("miri_decoders_clean", miri_decoders);
+    rep.count("miri_calls", miri_inputs);
+    rep.set("sanitizer_lanes", json!({"valgrind": have_vg, "miri": miri_ok, "skipped": skipped}));
+}
+
 fn lane_bin(name: &str) -> Option<PathBuf> {
     match name {
         "release" => std::env::current_exe().ok(),
@@ -992,6 +1146,7 @@ pub fn run(args: &Args, all: Vec<Codec>) -> i32 {
     if !complete.load(std::sync::atomic::Ordering::Relaxed) {
         rep.inconclusive("time budget expired before every planned batch ran");
     }
+    sanitizer_lanes(&mut rep, args, &codecs, &corpora, &self_bin, &scratch);
     rep.count("decoders", codecs.len() as u64);
     rep.set("lanes", json!(lanes_run));
     rep.count("calls_returned_ok", stats::total("returned_ok"));
